@@ -65,7 +65,12 @@ func ctlHelper() int {
 		ctlAnnounce("pt start")
 		tr.Trace(context.Background())
 		ctlAnnounce("pt done")
-	case "tracer":
+	case "tracer", "tracer_killed_at_fork":
+		if scenario == "tracer_killed_at_fork" {
+			// the freshly forked child is held at the child gate (descriptor 5, released by the simulator
+			// after it has killed this process): the tracer dies while the child has not done anything yet
+			forkexec.VGateFd = 5
+		}
 		n := 0
 		ptracer.VSetAfterWait(func(pid int, ws unix.WaitStatus) {
 			n++
@@ -166,14 +171,17 @@ func descendants(pid int) []int {
 func c16Run(c *vcore.Ctx) *vcore.Violation {
 	const prop = "C16"
 	src := c.Src
-	scenario := src.Pick("scenario", "container", "container_syncafter", "tracer", "tracer", "tracer_cred", "container_initcmd", "container_stalled_stderr")
+	scenario := src.Pick("scenario", "container", "container_syncafter", "tracer", "tracer", "tracer_cred", "container_initcmd", "container_stalled_stderr", "tracer_killed_at_fork")
 	long := src.Bool(1, 2, "program_runs_forever")
-	if scenario == "container_initcmd" || scenario == "container_stalled_stderr" || scenario == "tracer_cred" {
+	if scenario == "container_initcmd" || scenario == "container_stalled_stderr" || scenario == "tracer_cred" || scenario == "tracer_killed_at_fork" {
 		long = true
 	}
 	killAt := src.Int(40, "killpoint")
 	if src.Bool(1, 2, "early_kill") {
 		killAt = src.Int(5, "early_killpoint") // the first few points of a scenario are where the mechanisms hand over
+	}
+	if scenario == "tracer_killed_at_fork" {
+		killAt = 1 << 20 // never at an announcement: while the helper is blocked with its child held at the gate
 	}
 	c.Logf("scenario=%s program-runs-forever=%v kill at announcement #%d", scenario, long, killAt)
 	self, _ := os.Executable()
@@ -181,6 +189,14 @@ func c16Run(c *vcore.Ctx) *vcore.Violation {
 	ar, aw, _ := os.Pipe() // announcements helper -> simulator
 	rr, rw, _ := os.Pipe() // releases simulator -> helper
 	cmd.ExtraFiles = []*os.File{aw, rr}
+	var gateW *os.File
+	if scenario == "tracer_killed_at_fork" {
+		gr, gw, _ := os.Pipe()
+		cmd.ExtraFiles = append(cmd.ExtraFiles, gr) // descriptor 5 of the helper and of its forked child
+		gateW = gw
+		defer gr.Close()
+		defer gw.Close()
+	}
 	cmd.Env = append(os.Environ(), "VERIF_HELPER=ctl", "VERIF_CTL_SCENARIO="+scenario, "VERIF_CTL_DIR="+c.Dir, fmt.Sprintf("VERIF_CTL_LONG=%d", map[bool]int{true: 1, false: 0}[long]))
 	cmd.Stderr = nil
 	if err := cmd.Start(); err != nil {
@@ -251,6 +267,11 @@ loop:
 	syscall.Kill(helper, syscall.SIGKILL)
 	killed = true
 	cmd.Wait()
+	if gateW != nil {
+		// now the child held at the gate goes on: its parent and tracer-to-be is gone
+		c.Fault("child_released_after_tracer_death")
+		gateW.Write([]byte{1})
+	}
 	_ = killed
 	deadline := time.Now().Add(10 * time.Second)
 	var alive []int
